@@ -703,14 +703,12 @@ def main_check(check, argv):
         first = agg.errors[0].strip().splitlines()
         print(f"HARNESS-ERROR {len(agg.errors)} episode(s)/case(s) failed in harness code (no verdict from them); last line of the "
               f"first: {first[-1] if first else ''}", file=sys.stderr)
-        if agg.n_violations:
-            print(f"note: {agg.n_violations} run(s) of this batch did report a violation, but a batch with harness errors is "
-                  f"not trusted: fix the harness error first", file=sys.stderr)
         for e in agg.errors[:5]:
             print(e, file=sys.stderr)
         rc = 2
 
     # ---- determinism self-test ----
+    harness_errors = rc == 2
     if rc == 0 and selftest_n and os.environ.get("VERIF_SKIP_SELFTEST") != "1":
         ok, msg = selftest_fresh(check, base_seed, selftest_n, agg.run_digests, n_cases)
         extra["determinism_selftest"] = {"ok": ok, "detail": msg, "cases": selftest_n}
@@ -724,7 +722,10 @@ def main_check(check, argv):
     reported = 0
     known = load_known_findings(check.ID)
     known_hit = {}
-    if agg.violations and rc == 0:
+    # violations are processed even when some episodes failed in harness code (e.g. a changed library exhausting memory in
+    # one run): each is reported only after its minimised replay reproduced in a fresh interpreter, which is what makes it
+    # trustworthy; the exit status is then 1. Without a confirmed violation a batch with harness errors exits 2.
+    if agg.violations and (rc == 0 or harness_errors):
         viols = sorted(agg.violations, key=lambda v: (v["index"], len(v["choices"])))
         fresh = []
         for v in viols:
